@@ -3,12 +3,14 @@ Line-protocol driver for the resampler models (C07, C08).
 
 {"kind":"loop","period":µs,"align":µs|null,"now":wall µs at creation,"loop0":loop µs at creation,
  "actions":[{"t":loop µs,"op":"add","s":id,"d":sink latency µs} | {"t":…,"op":"remove","s":id}
-            | {"t":…,"op":"lat","s":id,"d":µs} | {"t":…,"op":"hog","d":µs} | {"t":…,"op":"send",…} (ignored)],
+            | {"t":…,"op":"lat","s":id,"d":µs} | {"t":…,"op":"hog","d":µs} | {"t":…,"op":"fail","s":id,…}
+            | {"t":…,"op":"send",…} (ignored)],
  "end":loop µs}
-   -> {"w0":…, "first_due":…, "ticks":[[fire, timestamp, [series…]], …] (ticks with at least one recipient), "dead":bool}
+   -> {"w0":…, "first_due":…, "ticks":[[fire, timestamp, [series…]], …] (ticks with at least one recipient), "dead":bool,
+       "restarts": number of ResamplingErrors recovered the way the resampling actor does}
 
 {"kind":"helper","period":µs,"max_age":"n/d","init_len":n,"max_len":n,
- "events":[{"op":"recv"|"add","ts":µs,"id":n,"none":bool,"nan":bool} | {"op":"tick","T":µs,"est":µs|null}]}
+ "events":[{"op":"recv"|"add","ts":µs,"id":n,"none":bool,"nan":bool,"inf":bool} | {"op":"tick","T":µs,"est":µs|null}]}
    -> {"ticks":[{"rel":[id…],"none":bool,"err":bool,"maxlen":n,"ip":µs|null}, …], "buf":[id…]}
 -/
 import Frequenz.Model.Resampler
@@ -37,6 +39,7 @@ def parseAction (j : Json) : Except String (Option (Int × Resampler.Action)) :=
   | "remove" => return some (t, .remove (← getNat j "s"))
   | "lat" => return some (t, .lat (← getNat j "s") (← getInt j "d"))
   | "hog" => return some (t, .hog (← getInt j "d"))
+  | "fail" => return some (t, .fail (← getNat j "s"))
   | "send" => return none
   | _ => throw s!"unknown action {op}"
 
@@ -60,13 +63,15 @@ def runLoop (j : Json) : Except String Json := do
     ("first_due", intJ (Extracted.Resampling.firstTickTime loop0 period we.2)),
     ("ticks", Json.arr (ticks.map (fun r => Json.arr #[intJ r.fire, intJ r.tick.ts,
         Json.arr (r.tick.recipients.map (fun s => intJ (s : Nat))).toArray])).toArray),
-    ("dead", Json.bool sim.st.dead)]
+    ("dead", Json.bool sim.st.dead),
+    ("restarts", intJ (sim.restarts : Nat))]
 
 open ResamplingHelper in
 def parseSample (j : Json) : Except String Sample := do
   return { ts := ← getInt j "ts", id := ← getNat j "id",
            isNone := (j.getObjValAs? Bool "none").toOption.getD false,
-           isNaN := (j.getObjValAs? Bool "nan").toOption.getD false }
+           isNaN := (j.getObjValAs? Bool "nan").toOption.getD false,
+           isInf := (j.getObjValAs? Bool "inf").toOption.getD false }
 
 open ResamplingHelper in
 def runHelper (j : Json) : Except String Json := do
